@@ -109,6 +109,24 @@ mut("textwave_skip_level2", "pymtl3/passes/tracing/PrintTextWavePass.py",
     "      if x.is_top_level_signal() and x.get_field_name() != \"clk\" and x.get_field_name() != \"reset\" and x._dsl.level < 3:", ["C16"])
 
 
+mut("queue_ptr_wrap_le", "pymtl3/stdlib/queues/queues.py",
+    "          s.head <<= s.head + PtrType(1) if s.head < s.last_idx else PtrType(0)\n\n        if s.enq_xfer:\n          s.tail <<= s.tail + PtrType(1) if s.tail < s.last_idx else PtrType(0)\n\n        if s.enq_xfer & ~s.deq_xfer:\n          s.count <<= s.count + CountType(1)\n        if ~s.enq_xfer & s.deq_xfer:\n          s.count <<= s.count - CountType(1)\n\n#-------------------------------------------------------------------------\n# NormalQueueRTL",
+    "          s.head <<= s.head + PtrType(1) if s.head <= s.last_idx else PtrType(0)\n\n        if s.enq_xfer:\n          s.tail <<= s.tail + PtrType(1) if s.tail < s.last_idx else PtrType(0)\n\n        if s.enq_xfer & ~s.deq_xfer:\n          s.count <<= s.count + CountType(1)\n        if ~s.enq_xfer & s.deq_xfer:\n          s.count <<= s.count - CountType(1)\n\n#-------------------------------------------------------------------------\n# NormalQueueRTL",
+    ["C17"])
+mut("pipe1_enq_rdy_no_deq", "pymtl3/stdlib/queues/queues.py",
+    "    s.enq.rdy //= lambda: ~s.reset & ( ~s.full | s.deq.en )", "    s.enq.rdy //= lambda: ~s.reset & ( ~s.full )", ["C17"])
+mut("bypass_deq_rdy_no_enq", "pymtl3/stdlib/queues/queues.py",
+    "    s.deq_rdy //= lambda: ~s.reset & ( (s.count > CountType(0) ) | s.enq_en )",
+    "    s.deq_rdy //= lambda: ~s.reset & ( (s.count > CountType(0) ) )", ["C17"])
+mut("clq_swap_constraints", "pymtl3/stdlib/queues/cl_queues.py",
+    "      M( s.peek   ) < M( s.enq  ),\n      M( s.deq    ) < M( s.enq  )",
+    "      M( s.peek   ) < M( s.enq  ),\n      M( s.enq    ) < M( s.deq  )", ["C17"])
+mut("streamq_count_simul", "pymtl3/stdlib/stream/queues.py",
+    "        if s.recv_xfer & ~s.send_xfer:\n          s.count <<= s.count + 1\n        elif ~s.recv_xfer & s.send_xfer:\n          s.count <<= s.count - 1\n\n#-------------------------------------------------------------------------\n# NormalQueueRTL",
+    "        if s.recv_xfer:\n          s.count <<= s.count + 1\n        elif ~s.recv_xfer & s.send_xfer:\n          s.count <<= s.count - 1\n\n#-------------------------------------------------------------------------\n# NormalQueueRTL",
+    ["C17"])
+
+
 def load_extra():
   p = os.path.join(VERIF, "tools", "mutants_extra.json")
   if os.path.exists(p):
